@@ -61,6 +61,8 @@ def exact_clean(ctx, rec, variant):
     keep_greater = (variant // 3) % 2 == 0
     metric = "score" if (variant // 6) % 2 == 0 else "geom1"
     gmap = {1: rng.choice([1, 3, 12]), 2: rng.choice([2, 5, 40])}
+    if variant % 5 == 0:
+        gmap = {1: 240115, 2: 240116}           # large consecutive group ids
     groups = [gmap[g] for g in rec["grp"]]
     # rank = index (1 = best)
     base = [10.0 - i for i in range(n)] if keep_greater else [0.5 + i for i in range(n)]
@@ -142,7 +144,11 @@ def gen_clean_case(rng, idx, nmax):
         pos.append([round(c[k] + rng.gauss(0, spread), 3) for k in range(3)])
     scores = rng.sample(range(1, 100000), n)
     scores = [s / 1000.0 for s in scores]
-    gvals = rng.sample([1, 2, 3, 5, 8, 13, 21], ngroups)
+    if rng.random() < 0.25:
+        base = rng.choice([100000, 240115, 999998, 1000000])      # date-coded / running ids: large and consecutive
+        gvals = [base + i for i in range(ngroups)]
+    else:
+        gvals = rng.sample([1, 2, 3, 5, 8, 13, 21], ngroups)
     groups = [rng.choice(gvals) for _ in range(n)]
     return {"kind": "clean", "id": idx, "pos": pos, "scores": scores, "groups": groups, "d": round(d, 4),
             "field": rng.choice(GROUP_FIELDS), "keep_greater": rng.random() < 0.5,
@@ -204,7 +210,7 @@ def gen_peaks_case(rng, idx, smax):
             "numbering": rng.randint(0, 1), "order": rng.choice(["zxz", "zzx"]),
             "nsup": rng.choice([5, 40, 150, 400]), "k": rng.randint(1, 40), "blobs": rng.randint(0, 6),
             "as_file": rng.random() < 0.5, "thr_mode": rng.choice(["quantile", "quantile", "zero", "negative"]),
-            "nangles": 23}
+            "nangles": 23, "map_form": rng.choice(["c", "c", "f", "view", "em", "mrc"])}
 
 
 def exec_peaks_case(ctx, case):
@@ -217,6 +223,9 @@ def exec_peaks_case(ctx, case):
         c = [rs.uniform(0, s) for s in shape]
         w = rs.uniform(1.0, 3.5)
         scores += rs.uniform(0.5, 2.0) * np.exp(-((gx - c[0]) ** 2 + (gy - c[1]) ** 2 + (gz - c[2]) ** 2) / (2 * w * w))
+    form = case.get("map_form", "c")
+    if form in ("em", "mrc"):
+        scores = scores.astype(np.float32).astype(np.float64)        # what a float32 file can hold
     flat = np.sort(scores.ravel())
     nsup = min(case["nsup"], scores.size - 1)
     if np.any(np.diff(flat[-nsup - 2:]) < 1e-9):
@@ -243,7 +252,14 @@ def exec_peaks_case(ctx, case):
         alist_arg = path
     else:
         alist_arg = alist
-    out, err = core.call_guarded(tmana.scores_extract_particles, scores, amap, alist_arg, 7, diameter,
+    if form in ("em", "mrc") and case.get("thr_mode", "quantile") != "quantile":
+        scores = scores.astype(np.float32).astype(np.float64)        # the shift above must survive the file too
+        if np.any(np.diff(np.sort(scores.ravel())[-nsup - 2:]) < 1e-9) or not (np.sort(scores.ravel())[-nsup - 1] < threshold < np.sort(scores.ravel())[-nsup]):
+            ctx.discard("float32 file would change the supra-threshold set")
+            return None
+    sig["map_form"] = form
+    scores_arg, amap_arg = map_args(ctx, case, form, scores, amap)
+    out, err = core.call_guarded(tmana.scores_extract_particles, scores_arg, amap_arg, alist_arg, 7, diameter,
                                  scores_threshold=threshold, angles_numbering=case["numbering"],
                                  angles_order=case["order"])
     ctx.ran(case)
@@ -284,6 +300,26 @@ def exec_peaks_case(ctx, case):
     return {"kind": "peaks", "n": n, "grp": [1] * n, "rank": rank, "nbr": adj, "kept": kept, "extra": extra,
             "peaks": peaks, "alist": [[int(round(a * 1e3)) for a in row] for row in alist.tolist()],
             "numbering": case["numbering"], "order": case["order"]}
+
+
+def map_args(ctx, case, form, scores, amap):
+    """The score and angle maps in one of the accepted input forms: C-ordered array, Fortran-ordered array, a
+    non-contiguous view, or an EM / MRC file (written by the independent writers of mbt/parsers.py)."""
+    from .. import parsers
+    if form == "f":
+        return np.asfortranarray(scores), np.asfortranarray(amap)
+    if form == "view":
+        return (np.ascontiguousarray(scores.transpose(2, 1, 0)).transpose(2, 1, 0),
+                np.ascontiguousarray(amap.transpose(2, 1, 0)).transpose(2, 1, 0))
+    if form in ("em", "mrc"):
+        ps = os.path.join(ctx.workdir, "scores_%d.%s" % (case["id"], form))
+        pa = os.path.join(ctx.workdir, "angles_%d.%s" % (case["id"], form))
+        writer = parsers.write_em if form == "em" else parsers.write_mrc
+        dims = tuple(int(v) for v in scores.shape)
+        writer(ps, dims, "float32", [float(v) for v in scores.ravel(order="F")])      # x fastest
+        writer(pa, dims, "float32", [float(v) for v in amap.ravel(order="F")])
+        return ps, pa
+    return scores, amap
 
 
 def judge(ctx, cases, traces, name):
